@@ -24,6 +24,7 @@ CONSTANTS User,        \* set of strings
           InitBal,     \* initial holding of every user
           KB, KC,      \* batch / bridge-call timeout in external blocks (params)
           Entries,     \* entry points for send/cancel: subset of {"msg", "evm"} (Cosmos message / precompile in an EVM transaction)
+          DepKinds,    \* kinds of inbound value: "dep" = SendToFx deposit, "depc" = inbound bridge call carrying tokens to an account
           FeeOps       \* whether increase-fee operations are in the alphabet (the entry point is dead for non-FX pairs on this tree)
 
 VARIABLES bal,      \* [User -> Nat] holdings of the token on fxcore (all representations)
@@ -163,10 +164,11 @@ ExtBlock ==
   /\ extH' = extH + 1 /\ op' = Op("ExtBlock", None, 0, 0, 0, None, "ok")
   /\ UNCHANGED <<bal, tx, bt, cl, ntx, nbt, ncl, fxH, obsExt, obsFx, lastObs, parked, queue, xbt, xlast, xcl, cobs, ndep, obsDep, obsOut, extIn, extOut>>
 
-ExtDeposit(u, a) ==
-  /\ Emit([t |-> "dep", h |-> extH, a |-> 0, u |-> u, amt |-> a, ok |-> TRUE])
+IsDep(t) == t \in {"dep", "depc"}
+ExtDeposit(u, a, k) ==
+  /\ Emit([t |-> k, h |-> extH, a |-> 0, u |-> u, amt |-> a, ok |-> TRUE])
   /\ ndep' = ndep + 1 /\ extIn' = extIn + a
-  /\ op' = Op("ExtDeposit", u, 0, a, 0, None, "ok")
+  /\ op' = Op("ExtDeposit", u, 0, a, 0, k, "ok")
   /\ UNCHANGED <<bal, tx, bt, cl, ntx, nbt, ncl, fxH, obsExt, obsFx, lastObs, parked, extH, xbt, xlast, xcl, cobs, obsDep, obsOut, extOut>>
 
 \* the contract runs a batch that fxcore has created (the relayer holds its signatures), whose nonce
@@ -222,9 +224,9 @@ Observe ==
          timedC == CallsTimedOut(h)
          refund(u) == SumSet({c \in timedC : cl[c].r = u}, [c \in ClIds |-> cl[c].amt])
      IN /\ queue' = Tail(queue) /\ lastObs' = n /\ obsExt' = h /\ obsFx' = fxH
-        /\ parked' = [parked EXCEPT ![n] = IF e.t \in {"dep", "call"} THEN e ELSE NilEv]
+        /\ parked' = [parked EXCEPT ![n] = IF IsDep(e.t) \/ e.t = "call" THEN e ELSE NilEv]
         /\ cobs' = [c \in ClIds |-> IF e.t = "call" /\ e.a = c THEN (IF e.ok THEN "succ" ELSE "fail") ELSE cobs[c]]
-        /\ obsDep' = obsDep + (IF e.t = "dep" THEN e.amt ELSE 0)
+        /\ obsDep' = obsDep + (IF IsDep(e.t) THEN e.amt ELSE 0)
         /\ obsOut' = obsOut + (IF e.t = "batch" THEN e.amt ELSE IF e.t = "call" /\ e.ok THEN e.amt ELSE 0)
         /\ tx' = [i \in TxIds |->
                     IF tx[i].st = "batch" /\ tx[i].b = execB THEN [NoTx EXCEPT !.st = "gone"]
@@ -241,7 +243,7 @@ ExecuteClaim(n) ==
   LET this == Op("ExecuteClaim", None, n, 0, 0, None, "ok")
       e == parked[n]
   IN IF e.t = None THEN Rej(this)
-     ELSE IF e.t = "dep" THEN
+     ELSE IF IsDep(e.t) THEN
        /\ bal' = [bal EXCEPT ![e.u] = @ + e.amt]
        /\ parked' = [parked EXCEPT ![n] = NilEv]
        /\ op' = this
@@ -263,7 +265,7 @@ Next ==
   \/ \E b \in BaseFees, m \in MinFees : RequestBatch(b, m)
   \/ \E u \in User, a \in Amt, r \in User : BridgeCall(u, a, r)
   \/ FxBlock \/ ExtBlock
-  \/ \E u \in User : ExtDeposit(u, 1)
+  \/ \E u \in User, k \in DepKinds : ExtDeposit(u, 1, k)
   \/ \E b \in 1..MaxBatch : ExtExecBatch(b)
   \/ \E c \in 1..MaxCall, g \in BOOLEAN : ExtExecCall(c, g)
   \/ Observe
@@ -280,7 +282,7 @@ Do(e) ==
     [] e.name = "BridgeCall"   -> BridgeCall(e.u, e.a, e.e)
     [] e.name = "FxBlock"      -> FxBlock
     [] e.name = "ExtBlock"     -> ExtBlock
-    [] e.name = "ExtDeposit"   -> ExtDeposit(e.u, e.a)
+    [] e.name = "ExtDeposit"   -> ExtDeposit(e.u, e.a, e.e)
     [] e.name = "ExtExecBatch" -> ExtExecBatch(e.id)
     [] e.name = "ExtExecCall"  -> ExtExecCall(e.id, e.a = 1)
     [] e.name = "Observe"      -> Observe
@@ -295,7 +297,7 @@ Present(i) == tx[i].st \in {"pool", "batch"}
 InFlightTx == SumSet({i \in TxIds : Present(i)}, [i \in TxIds |-> tx[i].amt + tx[i].fee])
 \* an open call whose SUCCESS has been observed is no longer "in an outgoing bridge call": it is out
 InFlightCl == SumSet({c \in ClIds : cl[c].st = "open" /\ cobs[c] # "succ"}, [c \in ClIds |-> cl[c].amt])
-ParkedDep == SumSet({n \in EvIds : parked[n].t = "dep"}, [n \in EvIds |-> parked[n].amt])
+ParkedDep == SumSet({n \in EvIds : IsDep(parked[n].t)}, [n \in EvIds |-> parked[n].amt])
 Holdings == SumSet(User, bal)
 
 \* ---- C04
@@ -405,7 +407,7 @@ C06_TimeoutAfterObserved == /\ \A b \in BtIds : bt[b].st = "open" => bt[b].timeo
 PendingSettle == SumSet({b \in BtIds : xbt[b] = "exec" /\ bt[b].st = "open"}, [b \in BtIds |-> BatchValue(b)])
                + SumSet({c \in ClIds : xcl[c] = "succ" /\ cl[c].st = "open"}, [c \in ClIds |-> cl[c].amt])
 AllCalls == SumSet({c \in ClIds : cl[c].st = "open"}, [c \in ClIds |-> cl[c].amt])
-Inbound == SumSet({k \in 1..Len(queue) : queue[k].t = "dep"}, [k \in 1..Len(queue) |-> queue[k].amt]) + ParkedDep
+Inbound == SumSet({k \in 1..Len(queue) : IsDep(queue[k].t)}, [k \in 1..Len(queue) |-> queue[k].amt]) + ParkedDep
 C06_NeverBoth == Holdings + InFlightTx + AllCalls - PendingSettle + Inbound = InitBal * Cardinality(User) + extIn - extOut
 
 ---------------------------------------------------------------------------
